@@ -17,7 +17,7 @@
 (*                                                                         *)
 (* A class shape == [fields : Seq([name, kind, das, req, owner]),          *)
 (*                   deco   : [base : BOOLEAN, sub : BOOLEAN], hasSub]     *)
-(*   kind  \in {"normal", "initvar", "noinit"};  das = default_as_set      *)
+(*   kind  \in {"normal", "initvar", "noinit", "flat"};  das = default_as_set      *)
 (*   owner \in {"base", "sub"}: the class declaring the field              *)
 (* An UNDECORATED dataclass subclass of a decorated class defines its own  *)
 (* __init__, which assigns every field through the inherited patched       *)
@@ -38,6 +38,8 @@ Names(s)    == {s.fields[i].name : i \in DOMAIN s.fields}
 ByKind(s,k) == {s.fields[i].name : i \in {j \in DOMAIN s.fields : s.fields[j].kind = k}}
 InitVars(s) == ByKind(s, "initvar")
 NoInit(s)   == ByKind(s, "noinit")
+\* aggregate (flattened) fields: deserialization always builds them, from whichever of their keys are present
+Flat(s)     == ByKind(s, "flat")
 Stored(s)   == Names(s) \ InitVars(s)                 \* attributes of the instance
 InitArgs(s) == Names(s) \ NoInit(s)                   \* constructor parameters
 Required(s) == {s.fields[i].name : i \in {j \in DOMAIN s.fields : s.fields[j].req}}
@@ -78,8 +80,8 @@ ConstructPos(k) ==
 
 Deser(K) ==
   /\ ~alive /\ K \subseteq InitArgs(shape) /\ Required(shape) \subseteq K
-  /\ IF Exact(shape) THEN fs' = AfterInit(shape, K) /\ lo' = fs'
-     ELSE fs' = Stored(shape) /\ lo' = K \ InitVars(shape)
+  /\ IF Exact(shape) THEN fs' = AfterInit(shape, K \cup Flat(shape)) /\ lo' = fs'
+     ELSE fs' = Stored(shape) /\ lo' = (K \cup Flat(shape)) \ InitVars(shape)
   /\ alive' = TRUE /\ UNCHANGED shape
   /\ Log([op |-> "deserialize", names |-> K])
 
@@ -126,7 +128,7 @@ ExactCollapse == Exact(shape) => lo = fs
 \* so serialize(deserialize(d)) emits d's keys plus those (the dual round trip of C05)
 DeserLaw ==
   (alive /\ Len(hist) = 1 /\ hist[1].op = "deserialize" /\ Exact(shape)) =>
-      fs = (hist[1].names \ InitVars(shape)) \cup AlwaysSet(shape)
+      fs = (hist[1].names \ InitVars(shape)) \cup AlwaysSet(shape) \cup Flat(shape)   \* aggregates are always built
 \* exclude_unset never emits an untracked field, exclude_unset=False emits everything
 ExcludeUnsetSound == KeysUnset \subseteq KeysAll
 =============================================================================
